@@ -197,7 +197,11 @@ Definition entries_of (p : Z) (es : svec) : svec := map (fun e => (fst e, snd e 
 
 (* ================================================================ algorithm model 2: heap column = multiset with duplicates *)
 Definition hsum (p : Z) (l : svec) (r : Z) : Z := fold_right (fun e acc => if fst e =? r then fadd p (snd e) acc else acc) 0 l.
-Definition hmax (l : svec) : Z := fold_right (fun e acc => Z.max (fst e) acc) (-1) l.
+Fixpoint hmax (l : svec) : Z :=
+  match l with
+  | [] => -1
+  | e :: t => match t with [] => fst e | _ :: _ => Z.max (fst e) (hmax t) end
+  end.
 (* _pop_pivot: largest row, duplicates summed, zero sums dropped *)
 Fixpoint hp_pop (fuel : nat) (p : Z) (l : svec) : option (Z * Z) * svec :=
   match fuel with
